@@ -93,30 +93,43 @@ def run(chk: Check):
     chk.run_tlc("Container", tlc.cfg_text(constants=dict(Hdr=2, Body=3, Trl=2, XHdr=4, MaxLen=7 if thorough else 5, EmitCases=False),
                                           invariants=["SameKind", "SameLogicalBytes", "AllAudioCueIsCdda"]),
                 label="design: second geometry")
-    na, nr = (60, 24) if thorough else (8, 4)
+    na, nr = (60, 24) if thorough else (9, 6)
     acases = c01.generate(chk, 64 if not thorough else 400, chk.seed + 9, label="AKAI images for C09", nsect=20, maxparts=2, maxvols=1, maxfiles=2)
     step = max(1, len(acases) // na)
     for i, case in enumerate(acases[::step][:na]):
         image = aw.build_image(case, chk.seed + i)
-        if i % 2:
-            image += bytes((7 * j) & 0xFF for j in range(1000 + i))        # not a multiple of 2048
+        trail = 0
+        if i % 3 == 1:
+            trail = 1000 + i
+            image += bytes((7 * j) & 0xFF for j in range(trail))        # not a multiple of 2048
+        elif i % 3 == 2:
+            # trimmed right behind the last byte any exported file depends on: live data in the last partial 2048-byte sector
+            trail = -max(n["need"] for n in case["needs"])
+            image = image[:-trail]
         exp = c01.expected_files(case, image)
 
         def cmp(outdir, exp=exp):
             files = repo.walk_files(outdir)
             return c01.compare_export(exp, sorted(files), files, "")
-        check_image(chk, image, "AkaiImageParser", "akai", {"case": case, "seed": chk.seed + i, "kind": "akai", "trail": i % 2 and 1000 + i}, cmp)
+        check_image(chk, image, "AkaiImageParser", "akai", {"case": case, "seed": chk.seed + i, "kind": "akai", "trail": trail}, cmp)
     rcases = c02.generate(chk, 40 if not thorough else 200, chk.seed + 10, label="Roland images for C09")
     step = max(1, len(rcases) // nr)
     for i, case in enumerate(rcases[::step][:nr]):
         image = rw.build_image(case, chk.seed + i)
-        if i % 2:
-            image += bytes(777)
+        trail = 0
+        if i % 3 == 1:
+            trail = 777
+            image += bytes(trail)
+        elif i % 3 == 2:
+            ends = [rw.A["data_fat"] + x["cluster"] * case["C"] + x["off"] + x["len"] for e in case["expected"] for sm in e["samples"] for x in sm["extents"]]
+            if ends:
+                trail = -max(ends)
+                image = image[:-trail]
 
         def cmp(outdir, case=case, image=image):
             files = repo.walk_files(outdir)
             return c02.compare(case, image, sorted(files), files, "")
-        check_image(chk, image, "RolandS7xxImage", "roland", {"case": case, "seed": chk.seed + i, "kind": "roland", "trail": i % 2 and 777}, cmp)
+        check_image(chk, image, "RolandS7xxImage", "roland", {"case": case, "seed": chk.seed + i, "kind": "roland", "trail": trail}, cmp)
     chk.sample({"encodings": ["raw", "mdf", "mdx", "cue_raw", "cue_mdf"], "akai_images": min(na, len(acases)), "roland_images": min(nr, len(rcases))})
     chk.assumptions += ["MODE1/2352 sectors carry the 12-byte sync, a 3-byte address, mode byte 1, 2048 data bytes and 288 arbitrary tail bytes; "
                         "the last sector is zero padded", "the all-audio cue case is C03/C17's subject and only model-checked here"]
@@ -126,13 +139,17 @@ def replay(chk: Check, path: str):
     rec = json.load(open(path))["case"]
     if rec["kind"] == "akai":
         image = aw.build_image(rec["case"], rec["seed"])
-        if rec.get("trail"):
+        if rec.get("trail", 0) > 0:
             image += bytes((7 * j) & 0xFF for j in range(rec["trail"]))
+        elif rec.get("trail", 0) < 0:
+            image = image[:-rec["trail"]]
         check_image(chk, image, "AkaiImageParser", "akai", rec)
     else:
         image = rw.build_image(rec["case"], rec["seed"])
-        if rec.get("trail"):
+        if rec.get("trail", 0) > 0:
             image += bytes(rec["trail"])
+        elif rec.get("trail", 0) < 0:
+            image = image[:-rec["trail"]]
         check_image(chk, image, "RolandS7xxImage", "roland", rec)
     chk.run_tlc("Container", tlc.cfg_text(constants=dict(Hdr=1, Body=2, Trl=1, XHdr=3, MaxLen=3, EmitCases=False),
                                           invariants=["SameKind", "SameLogicalBytes"]), label="design (replay context)")
